@@ -90,7 +90,37 @@ pub fn replay(trace: &Trace, findings: &BTreeSet<String>) -> ReplayResult {
     let mut sim = Sim::new(&trace.cfg, monitors_for(&trace.property), findings.clone());
     let mut violation = None;
     let mut failed_at = 0;
+    let dbg = std::env::var("VERIF_DEBUG").is_ok();
     for (i, step) in trace.steps.iter().enumerate() {
+        if dbg {
+            // run the op once on a fork just to show its outcome
+            let snap = sim.core.w.snapshot();
+            sim.core.w.advance(step.dt);
+            let o = sim.core.exec_op(&step.op, step.fault.clone());
+            eprintln!("#{i} {} -> {} {}", describe_step(&sim, step), if o.ok() { "OK" } else { "REJ" }, o.err_text().replace('\n', " | "));
+            if o.ok() {
+                for (k, v) in o.attrs() {
+                    eprintln!("      {k} = {v}");
+                }
+            }
+            for cl in o.report.calls.iter() {
+                eprintln!("      call {:?} {}", cl.kind, cl.sig);
+            }
+            sim.core.w.restore(&snap);
+            if let Op::Pm { msg: mantra_dex_std::pool_manager::ExecuteMsg::ProvideLiquidity { pool_identifier, .. }, funds, .. } = &step.op {
+                if funds.len() == 1 {
+                    if let Some(p) = sim.core.obs.pool(pool_identifier) {
+                        let other = p.pool_info.asset_denoms.iter().find(|d| **d != funds[0].denom).cloned().unwrap_or_default();
+                        let half = cosmwasm_std::coin(funds[0].amount.u128() / 2, funds[0].denom.clone());
+                        let q: Result<mantra_dex_std::pool_manager::SimulationResponse, _> = sim.core.w.app.wrap().query_wasm_smart(
+                            sim.core.w.a.pm.to_string(),
+                            &mantra_dex_std::pool_manager::QueryMsg::Simulation { offer_asset: half, ask_asset_denom: other, pool_identifier: pool_identifier.clone() },
+                        );
+                        eprintln!("      debug simulation of half: {:?}", q);
+                    }
+                }
+            }
+        }
         if let Err(v) = sim.apply(step) {
             violation = Some(v);
             failed_at = i;
